@@ -19,7 +19,10 @@ RULE = ("spends of the P2PK / P2PKH / m-of-n (1<=m<=n<=3) families built and sig
         "byte for byte; every single-field mutation after signing (version, locktime, each outpoint, sequence, output value / script / "
         "count, declared value, key, hash, r, s, high-S, flag byte, separator added / moved / removed); transplanted signatures; multisig "
         "order / count / dummy element; missing extended fields; input index out of range; conditionals in front of a separator "
-        "(documented limit); non-trivial = the model ran the finalised script to the end (accept or false); distinct by (op, arguments)")
+        "(documented limit; separators inside taken / untaken IF / NOTIF / ELSE branches x 1..3 unlocking pushes x CHECKSIG / CHECKSIGVERIFY / "
+        "CHECKMULTISIG: error or stack, never a panic); library-built spends whose signature items have unusual lengths (r or s with a "
+        "leading zero byte: 70 / 69 bytes, hard-coded nLockTime per flag and family; Transaction::sign_with_k with nonce 1/2: 60 bytes); "
+        "non-trivial = the model ran the finalised script to the end (accept or false); distinct by (op, arguments)")
 TRUSTED = ["hand-written Gallina model coq/Model/InterpSig.v + coq/Model/Interp.v of src/interpreter/{mod,script_matching}.rs, "
            "TxIn::get_finalised_script, Transaction::_verify, ECDSA::verify_hashbuf_impl (tied by this correspondence run)",
            "coq/Model/Sighash.v (C03/C10), coq/Model/Sig.v + coq/Prim/Der.v (C06), coq/Model/Ecdsa.v + coq/Prim/Secp256k1.v + coq/Prim/Rfc6979.v "
@@ -193,8 +196,60 @@ def build_case(rng, kind, flags, nin=None, nout=None, idx=None, seps=None, varia
                             ",".join(map(str, seps)) if seps else "_", str(variant)])
 
 
+# ---------------------------------------------------------------- signatures of unusual length
+# nLockTime values (found by a sweep with the driver) for which the RFC 6979 signature made by Transaction::sign over the fixed
+# transaction lz_tx(locktime), input 0, value 5000, has an r or s with a leading zero byte, i.e. a 70-byte (or 69-byte) stack item
+# instead of the usual 71/72: kind -> flag -> locktime.  Keys: KEYS[1] (P2PK, P2PKH), KEYS[1] + KEYS[2] (2-of-2).
+LZ_LOCKTIME = {
+    "p2pk": {65: 841, 66: 80, 67: 207, 193: 348, 194: 600, 195: 220, 1: 25, 2: 15, 3: 91, 129: 164, 130: 1387, 131: 275},
+    "p2pkh": {65: 19, 66: 196, 67: 210, 193: 54, 194: 178, 195: 88, 1: 32, 2: 42, 3: 394, 129: 476, 130: 5, 131: 444},
+    "ms": {65: 0, 66: 20, 67: 61, 193: 239, 194: 146, 195: 11, 1: 35, 2: 185, 3: 354, 129: 177, 130: 126, 131: 29},
+}
+LZ_EXTRA = [("ms", 65, 37259), ("ms", 1, 20215), ("p2pk", 65, 28007)]      # both signatures 70 bytes; a 69-byte signature
+HALF = (SECP_N + 1) // 2            # nonce 1/2: r = x(G/2) has 166 bits -> a 60-byte signature item (Transaction::sign_with_k)
+SHORT_NONCES = [HALF] + [153, 246, 1158]    # k with a short x(kG) (tools/props/c05.py LZ_NONCES)
+
+
+def lz_tx(locktime):
+    i1 = bytes(range(32)) + (1).to_bytes(4, "little") + b"\x00" + (0xFFFFFFFE).to_bytes(4, "little")
+    i2 = bytes(range(32, 64)) + (0).to_bytes(4, "little") + b"\x00" + (0xFFFFFFFF).to_bytes(4, "little")
+    o1 = (1000).to_bytes(8, "little") + bytes([25]) + bytes.fromhex(G.P2PKH)
+    o2 = (2000).to_bytes(8, "little") + bytes([5]) + bytes.fromhex("006a02cafe")
+    return ((2).to_bytes(4, "little") + b"\x02" + i1 + i2 + b"\x02" + o1 + o2 + locktime.to_bytes(4, "little")).hex()
+
+
+def lz_build(kind, flag, locktime, variant=0, seps="_"):
+    keys = KEYS[1] if kind != "ms" else KEYS[1] + "," + KEYS[2]
+    signers = "0.%d" % flag if kind != "ms" else "0.%d,1.%d" % (flag, flag)
+    return ("spend.build", [kind, lz_tx(locktime), "0", "5000", keys, signers, seps, str(variant)])
+
+
+def sig_item_lengths(txhex, idx):
+    t = parse_tx(bytes.fromhex(txhex))
+    return [len(x[1]) for x in toks(t["ins"][idx]["scr"]) if x[1] is not None and len(x[1]) >= 9 and x[1][0] == 0x30]
+
+
+def short_sig_builds(rng, tier):
+    out = []
+    flags = FLAGS if tier == "thorough" else None
+    for kind in ("p2pk", "p2pkh", "ms"):
+        fl = flags or [65, 1] + rng.sample([f for f in FLAGS if f not in (65, 1)], 2)
+        for f in fl:
+            out.append(lz_build(kind, f, LZ_LOCKTIME[kind][f]))
+    for kind, f, lt in LZ_EXTRA:
+        out.append(lz_build(kind, f, lt))
+    # explicit nonces through Transaction::sign_with_k
+    for k in (SHORT_NONCES if tier == "thorough" else SHORT_NONCES[:2]):
+        kh = "%064x" % k
+        for f in (65, 1):
+            out.append(("spend.build", ["p2pk", lz_tx(7), "0", "5000", KEYS[1], "0.%d.%s" % (f, kh), "_", "0"]))
+        out.append(("spend.build", ["p2pkh", lz_tx(7), "1", "5000", "u" + KEYS[4], "0.%d.%s" % (rng.choice(FLAGS), kh), "_", "0"]))
+        out.append(("spend.build", ["ms", lz_tx(7), "0", "5000", KEYS[1] + "," + KEYS[2], "0.65.%s,1.%d.%s" % (kh, rng.choice(FLAGS), "%064x" % (k + 1)), "_", "0"]))
+    return out
+
+
 def presample(rng, tier):
-    cases = []
+    cases = short_sig_builds(rng, tier)
     reps = 1 if tier == "quick" else 6
     for _ in range(reps):
         # every flag once per family
@@ -347,6 +402,34 @@ def ms_protocol(rng, txhex, idx, ext):
     return out
 
 
+def conditional_sep_cases(rng, tier):
+    """OP_CODESEPARATOR inside taken / untaken IF / NOTIF / ELSE branches at various depths, unlocking scripts of 1..3 pushes,
+    followed by CHECKSIG / CHECKSIGVERIFY / CHECKMULTISIG (outside the quantified families: the position is counted in executed
+    elements, so the guard of calculate_sighash_preimage decides between an error and a wrongly cut subscript; never a panic)."""
+    out = []
+    P = "21" + PK1
+    ks = range(0, 4) if tier == "quick" else range(0, 7)
+    t1 = base_tx(rng, 1, 1)
+    n = 0
+    for k in ks:
+        nops = "61" * k
+        bodies = ["5163" + nops + "ab68", "5163" + nops + "ab6761ab68", "0063ab67" + nops + "ab68", "0064" + nops + "ab68",
+                  "0063" + nops + "ab68", "51635163" + nops + "ab6868", "ab5163" + nops + "ab68", "5163" + nops + "ab68ab"]
+        for body in bodies:
+            for tail_kind in range(5):
+                n += 1
+                fl = 0x41 if n % 2 else 0x01
+                if tier == "thorough":
+                    fl = rng.choice(FLAGS)
+                sg = push(mk_sig(5 + n, 7, fl))
+                pk = bytes.fromhex(P)
+                unlock, tail = [(sg, P + "ac"), (sg + pk, "ac"), (sg + pk, "ad51"), (b"\x00" + sg, "51" + P + "51ae"),
+                                (b"\x01\x07" + sg + pk, "ac")][tail_kind]
+                t2 = parse_tx(t1); t2["ins"][0]["scr"] = unlock
+                out.append(spend_case(ser_tx(t2), 0, "9." + body + tail))
+    return out
+
+
 def generate(rng, tier, pre=None):
     cases = []
     built = []
@@ -357,7 +440,7 @@ def generate(rng, tier, pre=None):
     # 0. the assembling itself (Transaction::sign, script builders): the model reproduces the signed transaction byte for byte
     step = 3 if tier == "quick" else 1
     for k, ((op, args), out) in enumerate(pre or []):
-        if k % step == 0 or args[0] == "raw":
+        if k % step == 0 or args[0] == "raw" or args[1].startswith(lz_tx(0)[:40]):
             cases.append((op, list(args)))
     # 1. what the library built must be accepted (the `raw` ones are outside the families: correspondence only)
     for kind, txhex, idx, ext, _ in built:
@@ -417,6 +500,7 @@ def generate(rng, tier, pre=None):
                  "ab5163616168" + "21" + PK1 + "ac"]:
         t2 = parse_tx(t1); t2["ins"][0]["scr"] = push(mk_sig(5, 7, 0x41))
         cases.append(spend_case(ser_tx(t2), 0, "9." + lock))
+    cases.extend(conditional_sep_cases(rng, tier))
     return cases
 
 
